@@ -51,6 +51,7 @@ def run(repo, res, tier):
     _hk.rule_token_init(repo, res)
     an = langrules.analyse(repo)
     langrules.rule_g1_lang(repo, res, an)
+    langrules.rule_kw_excl(repo, res, an)
     langrules.rule_g2(repo, res, an)
     langrules.rule_s1(repo, res, an, "own")
     langrules.rule_n1(repo, res, an)
